@@ -719,6 +719,11 @@ class PrefixedSubAppResource(PrefixResource):
     def _add_prefix_to_resources(self, prefix: str) -> None:
         router = self._app.router
         for resource in router.resources():
+            if isinstance(resource, MatchedSubAppResource):
+                # Matched sub-app resources are not kept in the index
+                # (see register_resource()), they only take the prefix.
+                resource.add_prefix(prefix)
+                continue
             # Since the canonical path of a resource is about
             # to change, we need to unindex it and then reindex
             router.unindex_resource(resource)
